@@ -29,6 +29,7 @@ package factory
 //@ func ReadConfig(cfgPath string) (cfg *Config, err error)
 //@   ensures [err]  err != nil ==> cfg == nil
 //@   ensures [ok]   err == nil ==> cfg != nil && fresh(cfg)
+//@   ensures [resolved] err == nil ==> cfg.Pfcp != nil && ok(net.ResolveIPAddr("ip4", cfg.Pfcp.NodeID))
 //@   modifies *
 //@   serves C20 C07
 //@   at call InitConfigFactory:
